@@ -121,7 +121,8 @@ class SymWorld:
             if k in world.fail_at:
                 raise (world.fault_class or FAULT_CLASSES[k % len(FAULT_CLASSES)])(name)
             if name in world.consts:
-                return world.consts[name]
+                c = world.consts[name]
+                return list(c) if isinstance(c, list) else c      # a function that builds a list returns a new list every time
             if name in world.tables:
                 return world.tables[name].get(tuple(pos))
             if name in world.impure:
